@@ -478,7 +478,8 @@ Proof.
   { apply andb_false_iff in Hm2. destruct Hm2 as [H|H].
     - right. unfold Rltb in H. destruct (Rlt_dec _ _) as [|Hn]; [discriminate|].
       intros E. apply Hn. rewrite E. replace (r0 - r0) with 0 by ring. rewrite Rabs_R0, lit15. lra.
-    - left. apply Reqb_false_iff in H. exact H. }
+    - left. unfold Rltb in H. destruct (Rlt_dec _ _) as [|Hn]; [discriminate|].
+      intros E. apply Hn. rewrite E, Rabs_R0, lit15. lra. }
   unfold circle_mid, cir_core_in, circle_start1, circle_start2, iter_start_ok, cw_r0, w, sq. simpl.
   fold r0.
   assert (Hr' : 0 < r / r0) by (apply div_pos; auto).
@@ -612,7 +613,9 @@ Proof.
   assert (E : Rabs (2 / 2) = 1) by (replace (2 / 2) with 1 by lra; apply Rabs_R1).
   rewrite E.
   assert (R1 : Reqb 1 0 = false) by (apply Reqb_false_iff; lra).
-  rewrite R1. simpl. rewrite andb_false_r. reflexivity.
+  rewrite R1. simpl.
+  assert (R2 : Rltb (Rabs 1) (Rlit 1 (-15) * 1) = false) by (apply Rltb_false; rewrite Rabs_R1, lit15; lra).
+  rewrite R2, andb_false_r. reflexivity.
 Qed.
 
 Example cylinder_guards_nonvacuous : cyl_on_edge NumR (Build_cyl_in NumR 1 1 2) = false /\ 0 < 1 /\ 0 <= 1.
